@@ -268,6 +268,11 @@ class Event:
         self.extra = extra
         self._sig = None
 
+    @property
+    def retval(self):
+        """Return value recorded on an exit event (kept out of the signature for pure helpers)."""
+        return self.args[0] if self.args else self.extra
+
     def sig(self):
         if self._sig is None:
             self._sig = self._compute_sig()
